@@ -1219,7 +1219,18 @@ func (c *Client) connOpen(u *base.URL) error {
 					tlsConfig.ServerName = host
 				}
 
-				nconn = tls.Client(nconn, tlsConfig)
+				tconn := tls.Client(nconn, tlsConfig)
+
+				// perform the handshake here, so that it is subject to the dial timeout.
+				// otherwise a peer that accepts the connection and then stays silent
+				// blocks the first request, and Close(), forever.
+				err = tconn.HandshakeContext(dialCtx)
+				if err != nil {
+					nconn.Close()
+					return err
+				}
+
+				nconn = tconn
 			}
 		}
 	}
